@@ -325,6 +325,7 @@ def run(ctx):
         t = w.blocks[sb]["term"]
         false_t = [x[1] for x in t["ts"] if x[0] == 0]
         ok = t["k"] == "switch" and bool(false_t) and w.dominates(false_t[0], sets["const false"]) and w.dominates(t["else"], sets["const true"]) and not w.dominates(false_t[0], sets["const true"])
+    sm.clause_deactivate_counts(r, mir)
     r.inst("write|flag-cleared-when-all-consumed")
     if not ok:
         r.violate("write|flag-cleared-when-all-consumed", f"TransformStream::write no longer clears has_buffered_data exactly when consumed == chunk.len() (test: {[(op, a[:30], c[:30]) for _, op, a, c in cmp_]}): from then on every chunk is appended to the parsing buffer and charged to the memory limiter although nothing needs to be retained, so a run that needs no budget fails under a limit depending on the caller's chunk sizes", w.loc())
